@@ -71,10 +71,38 @@ def run(F, run, tier):
             if ok2:
                 run.check(PI.same_poly(PI.coeffs(d), a), "R13.3", "Polynomial::derivative", "inverse-of-antiderivative:" + inst, F.loc(M["derivative"]),
                           "derivative(antiderivative(p)) != p")
-        v, ok = call("integrate", [P(), lo, hi], inst, "R13.3")
+        ZZ = sp.Symbol("ZZ")
+        Fx = sum(c * ZZ ** (k + 1) / (k + 1) for k, c in enumerate(a))
+        # concrete limits in both orders and coinciding (an implementation may legitimately branch on the order of its limits; with symbolic limits
+        # such a branch is undecided, with concrete ones it is not)
+        limit_cases = [(sp.Rational(1, 3), sp.Integer(2)), (sp.Integer(2), sp.Rational(1, 3)), (sp.Rational(-3, 2), sp.Rational(-3, 2)), (sp.Integer(-1), sp.Rational(5, 2))]
+        n_conc = 0
+        for (la_, lb_) in limit_cases if kind == "real" else [(sp.Rational(1, 3) + sp.I, sp.Integer(2)), (sp.Integer(2), sp.Rational(1, 3) + sp.I)]:
+            cinst = "%s,limits=(%s,%s)" % (inst, la_, lb_)
+            try:
+                vv = PI.call(F, M["integrate"], [P(), la_, lb_])[0]
+            except vecint.IndexPanic as e:
+                run.fail("R13.3", "Polynomial::integrate", "panic:" + cinst, F.loc(M["integrate"]), "abstract execution panics (%s)" % e.why)
+                continue
+            except sym.Unsupported as u:
+                run.broken("R13.3", "Polynomial::integrate", cinst, F.loc(M["integrate"], u.node if isinstance(u.node, dict) else None), str(u))
+                continue
+            n_conc += 1
+            run.check(sym.is_zero(vv - (Fx.subs(ZZ, lb_) - Fx.subs(ZZ, la_))), "R13.3", "Polynomial::integrate", "F(b)-F(a):" + cinst, F.loc(M["integrate"]),
+                      "integrate(%s, %s) = %s is not F(upper) − F(lower) (reversed limits change the sign, equal limits give 0)" % (la_, lb_, sp.expand(vv)),
+                      sample="%s: ∫ = F(hi) − F(lo)" % cinst)
+        try:
+            v, ok = PI.call(F, M["integrate"], [P(), lo, hi])[0], True
+        except vecint.IndexPanic as e:
+            run.fail("R13.3", "Polynomial::integrate", "panic:" + inst, F.loc(M["integrate"]), "abstract execution panics (%s)" % e.why)
+            ok = False
+        except sym.Unsupported as u:
+            ok = False
+            if "undecided condition" in str(u) and n_conc >= 2:
+                run.observe("R13.3", F.loc(M["integrate"]), "integrate branches on its (symbolic) limits: decided on the concrete limit pairs only (%s)" % inst)
+            else:
+                run.broken("R13.3", "Polynomial::integrate", inst, F.loc(M["integrate"], u.node if isinstance(u.node, dict) else None), str(u))
         if ok:
-            ZZ = sp.Symbol("ZZ")
-            Fx = sum(c * ZZ ** (k + 1) / (k + 1) for k, c in enumerate(a))
             run.check(sym.is_zero(v - (Fx.subs(ZZ, hi) - Fx.subs(ZZ, lo))), "R13.3", "Polynomial::integrate", "F(b)-F(a):" + inst, F.loc(M["integrate"]),
                       "integrate(lo, hi) = %s is not F(hi) − F(lo)" % sp.expand(v), sample="%s: ∫ = F(hi) − F(lo)" % inst)
             v2, ok2 = call("integrate", [P(), lo, mid], inst, "R13.3")
